@@ -191,11 +191,14 @@ DivMod(x, y) ==
        IN r
 
 \* decimal digits, most significant first, as 4-digit chunks (first chunk unpadded)
-RECURSIVE ToChunksAcc(_, _)
-ToChunksAcc(y, acc) ==
-  IF y = <<>> THEN acc
-  ELSE LET dm == DivModSmall(y, 10000) IN ToChunksAcc(dm[1], <<dm[2]>> \o acc)
-ToChunks(x) == ToChunksAcc(x, <<>>)
+\* (a fold over an upper bound of the chunk count: 4 digits need > 13 bits)
+ToChunks(x) ==
+  LET nmax == (BitLen(x) \div 13) + 1
+      r == FoldLeft(LAMBDA acc, k:
+                      IF acc[1] = <<>> THEN acc
+                      ELSE LET dm == DivModSmall(acc[1], 10000) IN <<dm[1], <<dm[2]>> \o acc[2]>>,
+                    <<x, <<>>>>, Idx(nmax))
+  IN r[2]
 
 ChunkDigits(c, pad) ==
   LET d == <<c \div 1000, (c \div 100) % 10, (c \div 10) % 10, c % 10>>
